@@ -6,7 +6,8 @@ FileOf(L) == [b \in DOMAIN L.idx |-> L.fod[b].file]
 
 VarClass == IF vars = <<"all">> THEN "all"
             ELSE IF \E i \in DOMAIN vars : vars[i] \notin Rng(Names) THEN "unknown"
-            ELSE IF \E i, j \in DOMAIN vars : i < j /\ PosIn(Names, vars[i]) > PosIn(Names, vars[j]) THEN "reordered"
+            ELSE IF \E i, j \in DOMAIN vars : i < j /\ PosIn(Names, vars[i]) > PosIn(Names, vars[j])
+                 THEN (IF Len(vars) = Len(Names) THEN "permutation-of-every" ELSE "reordered")
             ELSE IF Len(vars) = Len(Names) THEN "every" ELSE "subset"
 
 LayClass(L) == <<Cardinality(FilesUsed(L)),
